@@ -290,7 +290,9 @@ class Frame(Formattable):
         describes. The result has leading and trailing whitespace
         stripped, and does not end in a newline.
         """
-        if self.lineno == 0 or self.hide_line:
+        if not self.lineno or self.hide_line:
+            # (lineno can be None, not only 0: on 3.10+ f_lineno is None
+            # while an instruction without line information executes)
             return ""
         return linecache.getline(
             self.filename, self.lineno, self.pyframe.f_globals
